@@ -881,9 +881,11 @@ fn k_apply(st: &mut KState, op: &KOp) -> Result<bool, (String, String)> {
             }
         }
         KOp::Timeout => {
+            if st.now + TX_TIMEOUT_STEP_MS as u64 > 30_000 {
+                return Ok(false); // part K stays within the 30 s lock timeout (expiry is part S's job)
+            }
             tclock::advance(TX_TIMEOUT_STEP_MS);
             st.now += TX_TIMEOUT_STEP_MS as u64;
-            assert!(st.now < 30_000, "part K must stay below the 30 s lock timeout");
             let timed_out = st.co.cleanup_timeouts();
             for t in 0..2u8 {
                 if timed_out.contains(&st.ids[t as usize]) && !st.finished[t as usize] {
@@ -1656,6 +1658,8 @@ fn main() {
     rep.assume("expiry is never tested on the boundary (age == timeout); coordinator parts stay below the 30 s lock timeout");
 
     // ---- D
+    let t0 = env::real_now_s();
+    let lap = |what: &str| eprintln!("[c12] {what} done at {:.1}s", env::real_now_s() - t0);
     let mut d = DOut::default();
     for n in 2..=5usize {
         d = d.merge(part_d_exhaustive(n));
@@ -1670,8 +1674,10 @@ fn main() {
     if d.cyclic == 0 || d.acyclic == 0 || d.distinct_victims.len() < 8 {
         rep.machinery("vacuous: detector part saw no cyclic / no acyclic graphs or too few victims");
     }
+    lap("D");
     // ---- S
     let s = part_s(s_depth);
+    lap("S");
     for (sig, m, j) in &s.violations {
         rep.violation(sig.clone(), m.clone(), j.clone());
     }
@@ -1682,6 +1688,7 @@ fn main() {
     }
     // ---- K
     let k = part_k(k_depth);
+    lap("K");
     for (sig, m, j) in &k.violations {
         rep.violation(sig.clone(), m.clone(), j.clone());
     }
